@@ -5,11 +5,11 @@
  "bound": "generated test files through Example.run_inline: 23 statement layouts x 5 headers x 21 argument edits x 6 flag sets, LF/CRLF, formatter-clean and not clean (C03); 9 pyproject [tool.black] variants x 5 shapes x values around the line limit (C20); Is()/f-string/star-expression/nested-snapshot name inside list/tuple/dict/call at every position (C10); containers of hand-written element expressions, depth<=2, width<=4, random edit scripts + all sequence pairs over 3 symbols up to length 3 (C11)",
  "input": {
   "prop": "C10",
-  "name": "star_list_two/1",
+  "name": "Is/dcd/pos0/bad",
   "flags": "fix",
-  "source": "from inline_snapshot import snapshot, Is\nfrom dataclasses import dataclass, field\n\n\n@dataclass\nclass DC:\n    a: object\n    b: list = field(default_factory=list)\n\n\n@dataclass\nclass DD:\n    b: list = field(default_factory=list)\n    a: object = 5\n\n\ndyn_l = [4, 5]\n\ndef test_a():\n    assert [2, 4, 5] == snapshot([0+1, *dyn_l])\n"
+  "source": "from inline_snapshot import snapshot, Is\nfrom dataclasses import dataclass, field\n\n\n@dataclass\nclass DC:\n    a: object\n    b: list = field(default_factory=list)\n\n\n@dataclass\nclass DD:\n    b: list = field(default_factory=list)\n    a: object = 5\n\n\ndyn_a = 5\n\ndef test_a():\n    assert DD(b=[7], a=6) == snapshot(DD(b=[0+1], a=Is(dyn_a)))\n"
  },
- "detail": "[C10 star_list_two/1 flags=fix] unmanaged text '[0+1, *dyn_l]' must survive verbatim but is gone/changed (1 -> 0 occurrences)\n--- before ---\nfrom inline_snapshot import snapshot, Is\nfrom dataclasses import dataclass, field\n\n\n@dataclass\nclass DC:\n    a: object\n    b: list = field(default_factory=list)\n\n\n@dataclass\nclass DD:\n    b: list = field(default_factory=list)\n    a: object = 5\n\n\ndyn_l = [4, 5]\n\ndef test_a():\n    assert [2, 4, 5] == snapshot([0+1, *dyn_l])\n\n--- after ---\nfrom inline_snapshot import snapshot, Is\nfrom dataclasses import dataclass, field\n\n\n@dataclass\nclass DC:\n    a: object\n    b: list = field(default_factory=list)\n\n\n@dataclass\nclass DD:\n    b: list = field(default_factory=list)\n    a: object = 5\n\n\ndyn_l = [4, 5]\n\ndef test_a():\n    assert [2, 4, 5] == snapshot([2, *dyn_l])\n"
+ "detail": "[C10 Is/dcd/pos0/bad flags=fix] unmanaged text 'Is(dyn_a)' must survive verbatim but is gone/changed (1 -> 0 occurrences)\n--- before ---\nfrom inline_snapshot import snapshot, Is\nfrom dataclasses import dataclass, field\n\n\n@dataclass\nclass DC:\n    a: object\n    b: list = field(default_factory=list)\n\n\n@dataclass\nclass DD:\n    b: list = field(default_factory=list)\n    a: object = 5\n\n\ndyn_a = 5\n\ndef test_a():\n    assert DD(b=[7], a=6) == snapshot(DD(b=[0+1], a=Is(dyn_a)))\n\n--- after ---\nfrom inline_snapshot import snapshot, Is\nfrom dataclasses import dataclass, field\n\n\n@dataclass\nclass DC:\n    a: object\n    b: list = field(default_factory=list)\n\n\n@dataclass\nclass DD:\n    b: list = field(default_factory=list)\n    a: object = 5\n\n\ndyn_a = 5\n\ndef test_a():\n    assert DD(b=[7], a=6) == snapshot(DD(b=[7], a=6))\n"
 }
 """
 
@@ -62,7 +62,7 @@ def rerun_identity(src):
         inline_snapshot.snapshot = real
 
 import ast
-SRC = 'from inline_snapshot import snapshot, Is\nfrom dataclasses import dataclass, field\n\n\n@dataclass\nclass DC:\n    a: object\n    b: list = field(default_factory=list)\n\n\n@dataclass\nclass DD:\n    b: list = field(default_factory=list)\n    a: object = 5\n\n\ndyn_l = [4, 5]\n\ndef test_a():\n    assert [2, 4, 5] == snapshot([0+1, *dyn_l])\n'
+SRC = 'from inline_snapshot import snapshot, Is\nfrom dataclasses import dataclass, field\n\n\n@dataclass\nclass DC:\n    a: object\n    b: list = field(default_factory=list)\n\n\n@dataclass\nclass DD:\n    b: list = field(default_factory=list)\n    a: object = 5\n\n\ndyn_a = 5\n\ndef test_a():\n    assert DD(b=[7], a=6) == snapshot(DD(b=[0+1], a=Is(dyn_a)))\n'
 FLAGS = 'fix'
 CWD_FILES = {}
 files = {'test_something.py': SRC}
@@ -75,14 +75,14 @@ compile(new.replace('\r\n', '\n'), 'test_something.py', 'exec')  # C03: still va
 EXPECT_GREEN = False
 if EXPECT_GREEN:
     rerun_identity(new)
-for ut in ['[0+1, *dyn_l]']:
+for ut in ['Is(dyn_a)']:
     assert new.count(ut) <= SRC.count(ut), ('unmanaged text multiplied', ut)
-for ut in ['[0+1, *dyn_l]']:
+for ut in ['Is(dyn_a)']:
     assert new.count(ut) == SRC.count(ut), ('unmanaged text not kept verbatim', ut)
 # finally the exact oracle of the stand-in (needs /verif on sys.path)
 sys.path.insert(0, '/verif')
 from bounded import b_layout
-CASE = {'prop': 'C10', 'name': 'star_list_two/1', 'src': 'from inline_snapshot import snapshot, Is\nfrom dataclasses import dataclass, field\n\n\n@dataclass\nclass DC:\n    a: object\n    b: list = field(default_factory=list)\n\n\n@dataclass\nclass DD:\n    b: list = field(default_factory=list)\n    a: object = 5\n\n\ndyn_l = [4, 5]\n\ndef test_a():\n    assert [2, 4, 5] == snapshot([0+1, *dyn_l])\n', 'flags': 'fix', 'utexts': ['[0+1, *dyn_l]'], 'markers': ['dyn_l'], 'u_correct': False, 'whole': '[0+1, *dyn_l]', 'inner_expect': None, 'survive': True, 'old': '[0+1, *dyn_l]', 'new': '[2, 4, 5]'}
+CASE = {'prop': 'C10', 'name': 'Is/dcd/pos0/bad', 'src': 'from inline_snapshot import snapshot, Is\nfrom dataclasses import dataclass, field\n\n\n@dataclass\nclass DC:\n    a: object\n    b: list = field(default_factory=list)\n\n\n@dataclass\nclass DD:\n    b: list = field(default_factory=list)\n    a: object = 5\n\n\ndyn_a = 5\n\ndef test_a():\n    assert DD(b=[7], a=6) == snapshot(DD(b=[0+1], a=Is(dyn_a)))\n', 'flags': 'fix', 'utexts': ['Is(dyn_a)'], 'markers': ['dyn_a'], 'u_correct': False, 'whole': None, 'inner_expect': None, 'survive': True, 'old': 'DD(b=[0+1], a=Is(dyn_a))', 'new': 'DD(b=[7], a=6)'}
 out = b_layout.eval_case(CASE)
 assert out['status'] != 'fail', out['detail']
 
